@@ -13,7 +13,7 @@ CONFIG = {
     "extract": ["locks"],
     "streams": [
         {
-            "name": "conc.seq", "harness": "conch", "driver": "drv_conc",
+            "name": "conc.seq", "harness": "conch", "driver": "drv_conc", "flush": True, "crash_signature": "crash-or-deadlock:SchemaCache.Schema",
             "n": {"quick": 24000, "thorough": 400000, "search": 40000},
             "shards": {"quick": 8, "thorough": 16, "search": 8},
             "rule": "seeded descriptor graphs of 1..9 schemas (object / oneof-wrapper messages, enums; forward-only DAGs with shared "
@@ -38,7 +38,7 @@ CONFIG = {
                     "sub-schemas (test.schema.v1.*), recursive (j5.schema.v1.*, NestedExposed), disjoint, generated descriptor graphs "
                     "(dynamicpb), mixed; every result is compared with the result of the same call alone on a fresh codec (JSON "
                     "compared up to object key order). Failures: a race detector report (signature race:<function of the write>), "
-                    "fatal 'concurrent map', crash, deadlock (60 s watchdog), differing result, unlinked ref observed. Non-trivial = a "
+                    "fatal 'concurrent map', crash, deadlock (25 s watchdog per round), differing result, unlinked ref observed. Non-trivial = a "
                     "child that completed calls; distinct by op text.",
         },
     ],
